@@ -316,6 +316,15 @@ CHECKS["C02"]["text"] = CHECKS["C02"]["text"].replace(
     "naming a subtype of the class (or none) and the reader's treatment of the element name puts it back — no other pair is "
     "touched (XmlLabel.v, tied to _derive_record_label and the reader by 5208 ordered lists + every element name per run). "
     "The rest of element-tree assembly (nsmap, child order, bundles) is not modelled (partial).")
+CHECKS["C06"]["text"] = CHECKS["C06"]["text"].replace(
+    "Whole-document theorem stated, not yet proved (partial):",
+    "Value level: the tokens of a printed value of every kind read back as the value. Record level: the line printed for a "
+    "record (name, optional identifier, formal arguments in order with '-' for the absent ones, bracketed attribute list of "
+    "any length) is cut by the specification's lexer into tokens which its expression parser reads as the record — kind, "
+    "identifier URI, formal arguments, every other attribute value in order. Document framing (declarations, bundles) is "
+    "not proved (partial):")
+CHECKS["C06"]["technique"] = ("Coq proofs (escape/unescape inversion; value- and record-level printer -> spec lexer -> spec parser = "
+                              "content) + extracted grammar-based reader executed on the implementation's text")
 
 
 def main():
